@@ -613,6 +613,7 @@ static void body(void)
 int main(int argc, char **argv)
 {
     parse_opts(argc, argv);
+    g_obj_args_copy = 1;    /* every key, tweak and counter buffer of this harness is at least as long as the length passed with it */
     run_prelude();
     if (!g_opts.sub) engine_error("--sub required");
     return mc_guarded_main(body);
